@@ -80,6 +80,7 @@ var gatePc = map[string]string{"q.top": "top", "q.shortcut": "shortcut", "q.sele
 
 type runner struct {
 	q        *queue.TaskQueue
+	tqs      *queue.TaskQueueSet
 	c        *qgate.Ctl
 	cancel   context.CancelFunc
 	pc       string
@@ -88,16 +89,54 @@ type runner struct {
 	poisoned bool // a panic happened inside a critical section: the queue lock may be held forever
 }
 
-func newRunner() *runner {
-	q := queue.NewTasksQueue()
-	q.WithName("q")
-	ctx, cancel := context.WithCancel(context.Background())
-	q.WithContext(ctx)
+func tune(q *queue.TaskQueue) {
 	q.WaitLoopCheckInterval = 50 * time.Microsecond
 	q.DelayOnQueueIsEmpty = time.Nanosecond
 	q.DelayOnRepeat = time.Nanosecond
-	c := qgate.New(q, true)
-	return &runner{q: q, c: c, cancel: cancel, pc: "notstarted", cur: "NIL"}
+}
+
+// newRunner builds the queue under test. In set mode the queue belongs to a TaskQueueSet (as in the operator)
+// and Stop is the set-level Stop that Shutdown uses.
+func newRunner(setMode bool) *runner {
+	ctx, cancel := context.WithCancel(context.Background())
+	r := &runner{cancel: cancel, pc: "notstarted", cur: "NIL"}
+	if setMode {
+		r.tqs = queue.NewTaskQueueSet()
+		r.tqs.WithContext(ctx)
+		r.tqs.NewNamedQueue("q", nil)
+		r.q = r.tqs.GetByName("q")
+	} else {
+		r.q = queue.NewTasksQueue()
+		r.q.WithName("q")
+		r.q.WithContext(ctx)
+	}
+	tune(r.q)
+	r.c = qgate.New(r.q, true)
+	return r
+}
+
+func (r *runner) stop() {
+	if r.tqs != nil {
+		r.tqs.Stop()
+	} else {
+		r.q.Stop()
+	}
+	r.stopped = true
+}
+
+// lateQueue: in set mode a worker started after Stop belongs to a queue that is created after Stop (queues are
+// created while the operator starts; shutdown may arrive in between). The content is carried over.
+func (r *runner) lateQueue() {
+	var ids []string
+	r.q.Iterate(func(t task.Task) { ids = append(ids, t.GetId()) })
+	r.c.Close()
+	r.tqs.NewNamedQueue("late", nil)
+	r.q = r.tqs.GetByName("late")
+	tune(r.q)
+	for _, id := range ids {
+		r.q.AddLast(mkTask(id))
+	}
+	r.c = qgate.New(r.q, true)
 }
 
 // advance releases the worker and records where it arrives.
@@ -123,6 +162,9 @@ func (r *runner) advance(release bool) error {
 func (r *runner) close() {
 	r.cancel()
 	r.q.Stop()
+	if r.tqs != nil {
+		r.tqs.Stop()
+	}
 	r.c.Gated = false
 	if r.poisoned {
 		r.c.Close()
@@ -195,9 +237,11 @@ func (r *runner) apply(st Step) (err error, retMismatch string) {
 		}
 		r.q.Filter(func(t task.Task) bool { return keep[t.GetId()] })
 	case "Stop":
-		r.q.Stop()
-		r.stopped = true
+		r.stop()
 	case "W_Start":
+		if r.tqs != nil && r.stopped {
+			r.lateQueue()
+		}
 		r.q.Start()
 		err = r.advance(false)
 	case "W_Handler":
@@ -236,7 +280,7 @@ func (r *runner) apply(st Step) (err error, retMismatch string) {
 
 func replayCase(n int, steps []Step) Result {
 	res := Result{Case: n, OK: true}
-	r := newRunner()
+	r := newRunner(n%2 == 1)
 	defer r.close()
 	for i, st := range steps {
 		if i == 0 {
@@ -326,6 +370,20 @@ func replayCase(n int, steps []Step) Result {
 				// the wait loop took the ticker case although the context was cancelled: see whether a task starts
 				if err := r.advance(true); err == nil && r.pc == "handling" {
 					return bad("C17/late-start/"+op, fmt.Sprintf("handler invoked for %s after Stop returned (the wait loop's select took the ticker case)", r.cur))
+				}
+			}
+			if r.stopped && r.pc != "handling" && r.pc != "exit" && r.pc != "stopped" {
+				// the worker left the specified path after Stop: let it run on and see whether a task is started
+				for k := 0; k < 12 && r.pc != "handling" && r.pc != "exit"; k++ {
+					if r.pc == "select" {
+						time.Sleep(4 * r.q.WaitLoopCheckInterval)
+					}
+					if r.advance(true) != nil {
+						break
+					}
+				}
+				if r.pc == "handling" {
+					return bad("C17/late-start/"+op, fmt.Sprintf("handler invoked for %s after Stop returned (spec: worker at %s after %s)", r.cur, st.Wpc, op))
 				}
 			}
 			if r.pc == "handling" && r.stopped {
